@@ -470,6 +470,9 @@ def main():
                          "wall_s": round(r["wall_s"], 1), "extra": st.get("extra", {})}
                 # oracle failures
                 fails = [json.loads(l) for l in open(os.path.join(r["outdir"], "oracle.jsonl")) if l.strip()]
+                for f in fails:  # a failure raised before the case emitted any op / observation
+                    f["ops"] = f.get("ops") or []
+                    f["obs"] = f.get("obs") or []
                 corr["oracle_failures"] += len(fails)
                 byfp = {}
                 for f in fails:
@@ -525,6 +528,9 @@ def main():
                 if r["rc"] != 0 or not os.path.exists(op):
                     continue
                 fails = [json.loads(l) for l in open(op) if l.strip()]
+                for f in fails:
+                    f["ops"] = f.get("ops") or []
+                    f["obs"] = f.get("obs") or []
                 search["oracle_failures"] += len(fails)
                 byfp = {}
                 for f in fails:
